@@ -41,7 +41,7 @@ def _m(name, specs, plan, cs, ps, **kw):
 def conditions(tier):
     out, q, t = [], [], []
     # whole unpainted scaffold, trailing contig(s) possibly in the final partial texel, piece forward or reversed
-    for specs, tag in (([("S1", "FGFGF")], "FGFGF"), ([("S1", "FFGF")], "FFGF")):
+    for specs, tag in (([("S1", "FGFGF")], "FGFGF"), ([("S1", "FFGF")], "FFGF"), ([("S1", "GFGFG")], "GFGFG")):
         nc = specs[0][1].count("F")
         for ps in ((1,), (-1,)):
             n = f"whole_unp_{tag}_{sfx((), ps)}"
@@ -51,6 +51,9 @@ def conditions(tier):
     n = "absent_scaffold"
     q.append(("scaffold_absent_from_map", _m(n, [("S1", "FGF"), ("S2", "FFGF")], ((0, 0), [(0, 0, 0)]), False, None), n, 900,
               "inputs F G F and F F G F; only the first is in the map (painted): the absent scaffold is re-added whole"))
+    n = "absent_scaffold_terminal_gaps"
+    q.append(("absent_scaffold_with_terminal_gaps", _m(n, [("S1", "FGF"), ("S2", "GFGFG")], ((0, 0), [(0, 0, 0)]), False, None), n, 900,
+              "as above, the absent input scaffold begins and ends with a gap row (FASTA record with leading/trailing N): re-added without terminal gaps"))
     # one cut, halves re-joined in one Pretext scaffold / separated
     for cs, ps in variants(2, 2):
         if cs in ((1, 1), (-1, 1)) and ps in ((1, 1), (1, -1), (-1, -1)):
@@ -92,7 +95,7 @@ def conditions(tier):
 from vlib.props.pgen import replay_model  # noqa: E402,F401
 
 BOUNDS = ["<= 2 input scaffolds of <= 5 rows, <= 3 pieces; all numbers unbounded symbolic"]
-OUTSIDE = ["larger shapes", "input scaffolds with two consecutive gap rows or terminal gaps", "gap provenance (third clause) is asserted for model maps only, as the statement says"]
+OUTSIDE = ["larger shapes", "input scaffolds with two consecutive gap rows", "gap provenance (third clause) is asserted for model maps only, as the statement says"]
 TRUSTED = ["CrossHair/z3", "integer abstraction of the PretextView model", "Fragment.key_tuple stub", "loader cuts"]
 
 TECHNIQUE = ("symbolic execution of the real remapping pipeline (CrossHair + z3); gap/adjacency oracle over contig ends (name, coordinate, side) as one z3 formula per path")
